@@ -152,7 +152,7 @@ func c08Run(c *core.Ctx, red string, t reflect.Type) {
 	}
 	for _, shape := range c08Shapes(c.Tier) {
 		rank := len(shape)
-		for li, lay := range gen.RowLayouts {
+		for li, lay := range operandLayouts(c) {
 			for ci, class := range classes {
 				if c.Tier != "thorough" && (li+ci)%2 == 1 && lay != gen.LC {
 					continue
